@@ -228,11 +228,89 @@ impl<'a> Gen<'a> {
             .into_iter()
             .filter(|v| !(matches!(v.ty, Ty::Mut(_)) && is_counter(&v.name)))
             .collect();
+        // fields of visible struct values (modules) of the wanted type
+        let mut fields: Vec<Expr> = vec![];
+        for v in self.vars_of(|vt| matches!(vt, Ty::Struct(_))) {
+            if let Ty::Struct(fs) = &v.ty {
+                for (k, ft) in fs {
+                    let ok = if exact { ft == t } else { crate::ty::sub(ft, t) && *ft != Ty::Never };
+                    if ok {
+                        fields.push(Expr::Field(Box::new(Expr::Var(v.name.clone())), k.clone()));
+                    }
+                }
+            }
+        }
+        if !fields.is_empty() && (cands.is_empty() || self.tape.chance(1, 3)) {
+            self.label("field of a module / struct value");
+            let k = self.tape.below(fields.len());
+            return Some(fields.swap_remove(k));
+        }
         if cands.is_empty() {
             None
         } else {
             Some(Expr::Var(cands[self.tape.below(cands.len())].name.clone()))
         }
+    }
+
+    /// `name := import "<file>"`: the file is self-contained (it is checked when the importing
+    /// program is parsed); it yields a struct of its top-level names
+    fn import_stmt(&mut self, name: String) -> Stmt {
+        self.label("import");
+        self.fresh += 1;
+        let file = format!("lib{}.sl", self.fresh);
+        // the file's body is generated in an empty scope
+        let saved_scopes = std::mem::replace(&mut self.scopes, vec![vec![]]);
+        let saved_iters = std::mem::take(&mut self.iterators);
+        let saved_ret = self.fn_ret.take();
+        let saved_loop = std::mem::replace(&mut self.in_loop, false);
+        let saved_effects = self.p.effects;
+        self.p.effects = 0; // tick functions are not visible to... they are, but keep files simple
+        let mut body = vec![];
+        for _ in 0..1 + self.tape.below(3) {
+            body.push(self.let_stmt(1));
+            body.append(&mut self.pending);
+        }
+        self.p.effects = saved_effects;
+        let layer = self.scopes.pop().unwrap();
+        self.scopes = saved_scopes;
+        self.iterators = saved_iters;
+        self.fn_ret = saved_ret;
+        self.in_loop = saved_loop;
+        let mut fields = std::collections::BTreeMap::new();
+        for v in layer {
+            fields.insert(v.name, v.ty);
+        }
+        fields.retain(|k, t| !is_counter(k) && *t != Ty::Never);
+        self.declare(&name, Ty::Struct(fields));
+        Stmt::Let(name, Box::new(Stmt::Import(file, body)))
+    }
+
+    /// `name := mod { a := ..; b := ..; a := ..; }`: a struct of exactly the names declared at the
+    /// module's own top level (their last declarations), evaluated in a scope of its own
+    fn module_stmt(&mut self, name: String, depth: usize) -> Stmt {
+        self.label("module");
+        self.scopes.push(vec![]);
+        let saved_loop = self.in_loop;
+        let mut body = vec![];
+        let n = 1 + self.tape.below(4);
+        for _ in 0..n {
+            // declarations, and now and then another kind of statement in between
+            let s = if self.tape.chance(1, 5) { self.stmt(depth.saturating_sub(1)) } else { Some(self.let_stmt(depth.saturating_sub(1))) };
+            if let Some(s) = s {
+                body.push(s);
+                body.append(&mut self.pending);
+            }
+        }
+        self.in_loop = saved_loop;
+        let layer = self.scopes.pop().unwrap();
+        let mut fields = std::collections::BTreeMap::new();
+        for v in layer {
+            fields.insert(v.name, v.ty);
+        }
+        // counters of loops and helper names stay inside
+        fields.retain(|k, t| !is_counter(k) && *t != Ty::Never);
+        self.declare(&name, Ty::Struct(fields));
+        Stmt::Let(name, Box::new(Stmt::Expr(Expr::Module(body))))
     }
 
     fn expr_inner(&mut self, t: &Ty, depth: usize) -> Expr {
@@ -648,7 +726,11 @@ impl<'a> Gen<'a> {
         let w_ctl = self.p.control;
         let w_it = self.p.iterators;
         let name = self.name_for_decl();
-        match self.tape.weighted(&[6, w_cells, w_ctl, 2, w_it, 1]) {
+        let w_mod = if self.scopes.len() <= 2 { self.p.scoping.min(3) } else { 0 };
+        let w_imp = if self.scopes.len() <= 2 { self.p.scoping.min(2) } else { 0 };
+        match self.tape.weighted(&[6, w_cells, w_ctl, 2, w_it, 1, w_mod, w_imp]) {
+            6 => self.module_stmt(name, depth),
+            7 => self.import_stmt(name),
             1 => {
                 // a cell, or an alias of an existing cell
                 let cells = self.writable_cells(|_| true);
